@@ -78,6 +78,22 @@ def c03_case(v, legacy, junk):
     exp = (len(b), norm(v))
     if k2 != 'ok':
         return (exp, '%s %r' % (k2, r))
+    if isinstance(r[1], (dict, list)) and r[0] == exp[0] and same(exp[1], r[1]):
+        # the decoded containers belong to the caller: changing them must not change what the same bytes decode to next time
+        def poison(x, depth=0):
+            if isinstance(x, dict):
+                for y in list(x.values()):
+                    poison(y, depth + 1)
+                x['verif-poison'] = depth
+            elif isinstance(x, list):
+                for y in x:
+                    poison(y, depth + 1)
+                x.append('verif-poison')
+        poison(r[1])
+        k3, r3 = catching(decode.embedded_value, b + junk)
+        if k3 != 'ok' or r3[0] != exp[0] or not same(exp[1], r3[1]):
+            return ('the same bytes decode to the same value after the first result was modified', repr(r3)[:300])
+        r = r3
     if r[0] != exp[0] or not same(exp[1], r[1]):
         return (exp, r)
     if isinstance(v, dict):
@@ -123,6 +139,10 @@ def oracle_c03(ctx):
     vals += [g.shared_value_ok(g.r.choice([1, 2, 3]), 3) for _ in range(300 if ctx.thorough else 60)]
     t_ = ['a', 'b']
     vals += [{'x': t_, 'y': t_}, [t_, t_], [{'k': t_}, {'k': t_}]]
+    # neighbours that are EQUAL under == but differ in type somewhere inside: each keeps its own types
+    for a_, b_ in [(1, True), (0, False), (1, 1.0), (3, D(3)), (D('1.0'), D('1.00')), (0.0, -0.0), (1.0, True), ('a', 'a'), (2, 2)]:
+        vals += [[[a_], [b_]], [[b_], [a_]], [{'n': a_}, {'n': b_}], {'x': [a_], 'y': [b_]}, [[a_], [b_], [a_]], [[[a_]], [[b_]]], [a_, b_, a_],
+                 [{'n': [a_]}, {'n': [b_]}], [[a_, 'x'], [b_, 'x']]]
     g.exotic = False
     # structural extremes: many entries, long strings, long byte arrays (sizes with every bit of a 16-bit counter and beyond)
     big = [{'k%05d' % i: i for i in range(5000)}, [None] * 5000, [[]] * 3000, {'s': 'x' * (2 ** 20)}, {'b': bytearray(b'\xce' * (2 ** 16 + 1))},
@@ -763,6 +783,20 @@ def oracle_c05(ctx):
         if k != 'ok' or bad:
             res.violation('decoder disagrees with the reference on a large well-formed field value (%d bytes, starts %s)' % (len(data), data[:12].hex()),
                           {'fn': 'none', 'args': '()'}, str(bad[0])[:200] if k == 'ok' else 'decodes', str(bad[1])[:200] if k == 'ok' else repr(bad))
+    # a receive loop peeks at one buffer and later decodes another: nothing about the first may leak into the second, even when
+    # the second bytes object has the same length (and, the first having been released, very likely the same address)
+    pairs5 = [(frame.marshal(commands.Basic.Reject(5, True), 7), frame.marshal(commands.Basic.Ack(9, False), 1)),
+              (frame.marshal(commands.Tx.Select(), 3), frame.marshal(body.ContentBody(b'abcd'), 2)),
+              (frame.marshal(body.ContentBody(b'x' * 20), 9), frame.marshal(commands.Basic.Qos(1, 2, False), 4) + b''),
+              (b'\x08\x00\x00\x00\x00\x00\x00\xce', frame.marshal(body.ContentBody(b''), 5))]
+    for a5, b5 in pairs5:
+        for rep in range(60 if ctx.thorough else 15):
+            res.case('peek then other %s %s %d' % (a5.hex()[:30], b5.hex()[:30], rep), tag='peek then decode another')
+            k, bad = catching(c05_peek_other_case, a5, b5)
+            if k != 'ok' or bad:
+                res.violation('a frame decoded after a peek at ANOTHER buffer of the same length', {'fn': 'c05_peek_other_case', 'args': pyrepr((a5, b5))},
+                              bad[0] if k == 'ok' else 'oracle runs', bad[1] if k == 'ok' else repr(bad))
+                break
     keys = list(refenc.METHODS)
     for i in range(6000 if ctx.thorough else 1200):
         if i % 4 == 3:
@@ -807,6 +841,24 @@ def oracle_c05(ctx):
             if bad:
                 res.violation('unrepresentable timestamp (%s) is not refused' % what, {'fn': 'c05_refused_case', 'args': pyrepr((data,))}, bad[0], bad[1])
     return res
+
+
+@replayer
+def c05_peek_other_case(a, b):
+    want = frame.unmarshal(b)
+    want = (want[0], want[1], lanes.frame_sx(want[2]))
+    for _ in range(25):
+        for first, second in ((a, b), (b, b)):
+            pad = b'' if len(first) >= len(second) else b'\x00' * (len(second) - len(first))
+            tmp = bytes(bytearray(first + pad))        # a fresh object of the SAME length as the frame decoded next
+            frame.frame_parts(tmp)
+            del tmp
+            fresh = bytes(bytearray(second))
+            k, r = catching(frame.unmarshal, fresh)
+            if k != 'ok' or (r[0], r[1], lanes.frame_sx(r[2])) != want:
+                return (want, (r[0], r[1], lanes.frame_sx(r[2])) if k == 'ok' else repr(r))
+            del fresh
+    return None
 
 
 @replayer
@@ -1066,12 +1118,20 @@ def c07_case(data, k):
             kk, r = catching(frame.unmarshal, buf)
         if not (kk == 'err' and isinstance(r, exceptions.UnmarshalingException)):
             return ('UnmarshalingException (%s input)' % label, '%s %r' % (kk, r if kk != 'ok' else (r[0], r[1], type(r[2]).__name__)))
+    # an application that turns warnings into errors: an incomplete frame is still just "wait for more data"
+    import warnings as _w
+    with _w.catch_warnings():
+        _w.simplefilter('error')
+        kk, r = catching(frame.unmarshal, data[:k])
+    if not (kk == 'err' and isinstance(r, exceptions.UnmarshalingException)):
+        return ('UnmarshalingException (warnings turned into errors)', '%s %r' % (kk, r if kk != 'ok' else (r[0], r[1], type(r[2]).__name__)))
     return None
 
 
 def oracle_c07(ctx):
     res = Result('c07.prefix')
     g = ctx.gen
+    env_snapshots(res, 'prefix')        # every prefix of a corpus of frames, in interpreters started with -bb, -O, -X dev ...
     frames = valid_frames(ctx, 4000 if ctx.thorough else 400, boundaries=True)
     frames.append((None, 0, b'\x08\x00\x00\x00\x00\x00\x00\xce'))
     frames.append((None, 0, b'AMQP\x00\x00\x09\x01'))
@@ -2779,7 +2839,27 @@ sys.path.insert(0, sys.argv[1])
 which = sys.argv[2]
 from pamqp import commands, constants, exceptions
 out = {}
-if which == 'rt':
+if which == 'prefix':
+    from pamqp import frame, header, body, heartbeat
+    C = commands
+    frames_ = [frame.marshal(c(), 1) for c in C.INDEX_MAPPING.values() if not c.__slots__]
+    frames_ += [b'\x01\x00\x01\x00\x00\x00\x05\x00\x3c\x00\x64\x01\xce', frame.marshal(C.Basic.Publish(0, 'amq.topic', 'rk', False, False), 2),
+                frame.marshal(C.Queue.Declare(0, 'q', arguments={'a': 1, 's': 'x'}), 3), frame.marshal(C.Connection.Close(404, 'NOT_FOUND - x', 50, 10), 0),
+                frame.marshal(header.ContentHeader(0, 5, C.Basic.Properties(content_type='a', headers={'k': 'v'})), 1), frame.marshal(body.ContentBody(b'abc\xce'), 1),
+                frame.marshal(heartbeat.Heartbeat(), 0), frame.marshal(header.ProtocolHeader(0, 9, 1), 0)]
+    rows = []
+    for fb in frames_:
+        for k in range(len(fb)):
+            for buf in (fb[:k], bytearray(fb[:k])):
+                try:
+                    frame.unmarshal(buf)
+                    rows.append([fb.hex()[:24], k, type(buf).__name__, 'returned'])
+                except exceptions.UnmarshalingException:
+                    pass
+                except BaseException as e:
+                    rows.append([fb.hex()[:24], k, type(buf).__name__, type(e).__name__])
+    out['not_unmarshaling_exception'] = rows
+elif which == 'rt':
     # a fixed corpus of frames, encoded and decoded
     import datetime, decimal
     from pamqp import frame, header, body, heartbeat, encode
@@ -2894,12 +2974,13 @@ def env_snapshot_case(which, flags, pollute):
     return None
 
 
+PREFIX_VARIANTS = [(['-W', 'error'], False), (['-bb', '-W', 'error'], False), (['-bb'], True)]
 ENV_VARIANTS = [(['-O'], False), (['-OO'], False), (['-X', 'dev'], False), (['-bb'], False), ([], True), (['-O'], True), (['-X', 'utf8=0'], False),
                 (['-X', 'int_max_str_digits=640'], False)]
 
 
 def env_snapshots(res, which):
-    for flags, pollute in ENV_VARIANTS:
+    for flags, pollute in ENV_VARIANTS + (PREFIX_VARIANTS if which == 'prefix' else []):
         res.case('snapshot %s %r %s' % (which, flags, pollute), tag='interpreter flags / environment')
         k, bad = catching(env_snapshot_case, which, flags, pollute)
         if k != 'ok' or bad:
